@@ -18,7 +18,8 @@ EXIT_OK, EXIT_VIOLATION, EXIT_INCONCLUSIVE = 0, 1, 2
 
 
 class Harness:
-    def __init__(self, name, fn, params=None, max_paths=2000, twin=None, timeout_ms=60000, batch=6, concrete=False):
+    def __init__(self, name, fn, params=None, max_paths=2000, twin=None, timeout_ms=60000, batch=6, concrete=False, error_replay=None):
+        self.error_replay = error_replay  # (module-level fn, scenario): reference run of the real code, used when a path of this harness ends in an exception
         self.name = name
         self.fn = fn
         self.params = params or {}
@@ -71,10 +72,16 @@ def _worker_task(args):
         except Exception as e:
             import traceback
 
+            site = explorer._raise_site(e)
             res = [("concrete." + h.name, None, f"{type(e).__name__}: {e}\n{traceback.format_exc(limit=6)}")]
+            if site is not None:  # the code under analysis itself raised on the reference scenarios
+                res = [("concrete." + h.name, "raised", f"the code under analysis raises {type(e).__name__}: {str(e)[:200]} at {site[0]}:{site[1]} ({site[2]}) on a reference scenario")]
         out = {"paths": 1, "nontrivial_paths": 0, "records": [], "errors": [], "queries": 0, "solver_s": 0.0,
                "leftover": [], "samples": [], "statuses": {"ok": 1}}
         for oid, ok, detail in res:
+            if ok == "raised":
+                out["records"].append({"id": oid, "verdict": "concrete_raised", "trivial": False, "info": {"detail": detail}, "params": {}, "trace": []})
+                continue
             out["records"].append({"id": oid, "verdict": "concrete_ok" if ok else ("concrete_fail" if ok is False else "error"),
                                    "trivial": False, "info": {"detail": detail}, "params": {}, "trace": []})
     else:
@@ -83,6 +90,38 @@ def _worker_task(args):
     out["functions"] = sorted(_COVER - before) if _COVER is not None else []
     out["all_functions"] = sorted(_COVER) if _COVER is not None else []
     return out
+
+
+_CONCRETE_RERUN = {}
+
+
+def replay_concrete_harness(sc):
+    """re-run the concrete reference harness of a check module on the real code: (True, what failed) / (False, summary)"""
+    from . import explorer
+
+    mod = importlib.import_module(sc["module"])
+    h = None
+    for tier in (sc.get("tier", "quick"), "thorough", "quick"):
+        for cand in mod.harnesses(tier):
+            if cand.name == sc["harness"] and cand.concrete:
+                h = cand
+                break
+        if h is not None:
+            break
+    if h is None:
+        return None, f"concrete harness {sc['harness']} not found in {sc['module']}"
+    explorer._clear_rpylib_caches()
+    try:
+        res = h.fn(**h.params)
+    except Exception as e:
+        site = explorer._raise_site(e)
+        if site is None:
+            raise
+        return True, f"the code under analysis raises {type(e).__name__}: {str(e)[:200]} at {site[0]}:{site[1]} ({site[2]}) on a reference scenario"
+    bad = [(oid, detail) for oid, ok, detail in res if ok is False]
+    if bad:
+        return True, "; ".join(f"{oid}: {str(detail)[:300]}" for oid, detail in bad[:4])
+    return False, f"{len(res)} reference scenario(s) agree with the real code"
 
 
 def load_known(pid):
@@ -97,7 +136,7 @@ def load_known(pid):
 
 
 def run_check(pid, tier, harnesses, expect=(), attempted=(), assumptions=(), bounds=None, level_note="",
-              time_budget_s=None, workers=None):
+              time_budget_s=None, workers=None, error_replays=None):
     """Explore all harnesses, aggregate verdicts, write evidence, print lines, return exit code."""
     global _HARNESSES, _KNOWN
     t_start = time.time()
@@ -206,8 +245,23 @@ def run_check(pid, tier, harnesses, expect=(), attempted=(), assumptions=(), bou
                     inconclusive.append(f"{oid}: counterexample not reproduced on the real code ({str(r.get('replay_detail'))[:300]}); model={json.dumps(r.get('model'))[:300]}")
             elif r["verdict"] == "unknown" and claimed:
                 inconclusive.append(f"{oid}: solver unknown ({r.get('reason')}) params={r.get('params')}")
-            elif r["verdict"] == "concrete_fail":
-                inconclusive.append(f"{oid}: translator validation failed: {r['info'].get('detail')}")
+            elif r["verdict"] in ("concrete_fail", "concrete_raised"):
+                # the reference scenarios run the real code on plain numbers against the same oracles the obligations use; on the unchanged tree
+                # they all pass (translator validation).  A failure is re-run and, when it reproduces, reported as found by the concrete reference run
+                sc = {"module": h.fn.__module__, "harness": h.name, "tier": tier}
+                key = json.dumps(sc, sort_keys=True)
+                if key not in _CONCRETE_RERUN:
+                    try:
+                        _CONCRETE_RERUN[key] = replay_concrete_harness(sc)
+                    except Exception as e:
+                        _CONCRETE_RERUN[key] = (None, f"re-run raised {type(e).__name__}: {e}")
+                ok2, detail2 = _CONCRETE_RERUN[key]
+                if ok2 is True:
+                    violations.append((h, {"id": f"{pid}.concrete.real_code_agrees_with_the_reference_on_the_reference_scenarios", "params": {}, "regions_hit": [],
+                                           "model": None, "scenario": sc, "replay_fn": "symx.runner:replay_concrete_harness",
+                                           "replay_detail": "[found by the concrete reference run, not by the solver] " + str(detail2)}))
+                else:
+                    inconclusive.append(f"{oid}: translator validation failed and did not reproduce: {r['info'].get('detail')}")
             elif r["verdict"] == "error":
                 inconclusive.append(f"{oid}: concrete harness error: {r['info'].get('detail')}")
     for oid in expect:
@@ -215,6 +269,40 @@ def run_check(pid, tier, harnesses, expect=(), attempted=(), assumptions=(), bou
             inconclusive.append(f"expected obligation {oid} was never reached (vacuity guard)")
 
     # ---- replay files for violations
+    # a harness whose symbolic run ended in an exception (the code under test raised, or left the modelled fragment): its reference replay
+    # runs the real code on concrete inputs; a misbehaviour reproduced there is reported (marked as found by the replay, not by the solver)
+    error_replays = error_replays or {}
+    done_replays = {}
+    for i, h in enumerate(harnesses):
+        if not agg[i]["errors"] or h.twin:
+            continue
+        er = h.error_replay
+        if er is None:
+            for prefix, cand in error_replays.items():
+                if h.name.startswith(prefix):
+                    er = cand
+                    break
+        if er is None:
+            continue
+        fn, scenario = er
+        key = (fn.__module__, fn.__name__, json.dumps(scenario, sort_keys=True, default=str))
+        if key not in done_replays:
+            try:
+                done_replays[key] = fn(scenario)
+            except Exception as e:
+                from . import explorer
+
+                site = explorer._raise_site(e)
+                if site is not None:
+                    done_replays[key] = (True, f"the code under analysis raises {type(e).__name__}: {str(e)[:200]} at {site[0]}:{site[1]} ({site[2]}) on the reference scenario {scenario}")
+                else:
+                    done_replays[key] = (None, f"reference replay raised {type(e).__name__}: {e}")
+        ok, detail = done_replays[key]
+        if ok is True:
+            first = agg[i]["errors"][0]
+            violations.append((h, {"id": f"{pid}.{h.name.split('.')[0]}.real_code_runs_as_the_reference_expects", "params": first.get("params"), "regions_hit": [],
+                                   "model": None, "scenario": scenario, "replay_fn": f"{fn.__module__}:{fn.__name__}",
+                                   "replay_detail": f"[found by the reference replay after the symbolic run ended in: {str(first.get('error')).strip().splitlines()[0][:160]}] {detail}"}))
     seen = set()
     for h, r in violations:
         key = (r["id"], tuple(r.get("regions_hit", [])))
